@@ -496,19 +496,30 @@ def fp_shift(inst):
     for v in (x, y):
         cons += [z3.Not(z3.fpIsNaN(v)), z3.Not(z3.And(z3.fpIsInf(v), z3.fpIsPositive(v)))]
     ax, ay = z3.fpSub(rm, x, shift), z3.fpSub(rm, y, shift)
-    zero, w = z3.FPVal(0.0, F), z3.FPVal(W, F)
     both_ninf = z3.And(z3.fpIsInf(x), z3.fpIsInf(y))
     big = z3.If(z3.fpGT(ay, ax), ay, ax)
-    good = z3.And(z3.Not(z3.fpIsNaN(shift)), z3.Not(z3.fpIsInf(shift)), z3.Not(z3.fpIsNaN(ax)), z3.Not(z3.fpIsNaN(ay)),
-                  z3.fpLEQ(ax, w), z3.fpLEQ(ay, w), z3.Or(both_ninf, z3.fpGEQ(big, z3.fpNeg(w))))
+
+    def contract(hi, lo):
+        return z3.And(z3.Not(z3.fpIsNaN(shift)), z3.Not(z3.fpIsInf(shift)), z3.Not(z3.fpIsNaN(ax)), z3.Not(z3.fpIsNaN(ay)),
+                      z3.fpLEQ(ax, z3.FPVal(hi, F)), z3.fpLEQ(ay, z3.FPVal(hi, F)), z3.Or(both_ninf, z3.fpGEQ(big, z3.FPVal(-lo, F))))
+    good = contract(W, W)
+    from symx import engine
+    # stage 1: a CATASTROPHIC breach (an exp argument overflows, or the largest one underflows to 0) - such a model is
+    # numerically wrong on the real kernel, so the verdict does not depend on which model of the W-contract z3 returns
     sol = z3.Solver()
     sol.set("timeout", 300000)
     sol.add(*cons)
-    sol.add(z3.Not(good))
-    from symx import engine
+    sol.add(z3.Not(contract(709.0, 746.0)))
     t1 = time.time()
     r = sol.check()
     engine.STATS.queries += 1
+    if r != z3.sat:
+        sol = z3.Solver()
+        sol.set("timeout", 300000)
+        sol.add(*cons)
+        sol.add(z3.Not(good))
+        r = sol.check()
+        engine.STATS.queries += 1
     engine.STATS.solver_s += time.time() - t1
     out["solver_s"] = round(time.time() - t1, 2)
     if r == z3.unsat:
@@ -613,8 +624,8 @@ def _fp_stab_path(inst, out, kernel, shapes, dims_in, dims_out, vars_, logs, pc,
         out.update(status="inconclusive", detail="kernel does not exponentiate each operand exactly once (exp calls: %s)" % [l.shape for l in logs])
         return out
     F = FA.F64
-    w = z3.FPVal(W, F)
-    cons, good = [], []
+    w, hi_c, lo_c = z3.FPVal(W, F), z3.FPVal(709.0, F), z3.FPVal(-746.0, F)
+    cons, good, good_cat = [], [], []       # good_cat: the weaker contract whose breach is catastrophic (overflow / total underflow)
     for k, (dims, v, lg) in enumerate(zip(dims_in, vars_, logs)):
         groups = {}
         for i in np.ndindex(*v.shape):
@@ -626,18 +637,30 @@ def _fp_stab_path(inst, out, kernel, shapes, dims_in, dims_out, vars_, logs, pc,
                 out.update(status="inconclusive", detail="opaque exp argument")
                 return out
             good.append(z3.And(z3.Not(z3.fpIsNaN(a)), z3.fpLEQ(a, w)))
+            good_cat.append(z3.And(z3.Not(z3.fpIsNaN(a)), z3.fpLEQ(a, hi_c)))
             groups.setdefault(tuple(ix for d, ix in zip(dims, i) if d in dims_out), []).append((x, a))
         for g in groups.values():
             good.append(z3.Or(z3.And(*[z3.fpIsInf(x) for x, _ in g]), z3.Or(*[z3.fpGEQ(a, z3.fpNeg(w)) for _, a in g])))
+            good_cat.append(z3.Or(z3.And(*[z3.fpIsInf(x) for x, _ in g]), z3.Or(*[z3.fpGEQ(a, lo_c) for _, a in g])))
             out["cells"] += len(g)
+    tmo = 120000 if os.environ.get("VERIF_TIER", "quick") == "quick" else 900000
+    t1 = time.time()
+    # stage 1: a catastrophic breach is numerically wrong on the real kernel whatever model z3 picks; stage 2: the W-contract
     sol = z3.Solver()
-    sol.set("timeout", 120000 if os.environ.get("VERIF_TIER", "quick") == "quick" else 900000)
+    sol.set("timeout", tmo)
     sol.add(*cons)
     sol.add(*pc)
-    sol.add(z3.Not(z3.And(*good)))
-    t1 = time.time()
+    sol.add(z3.Not(z3.And(*good_cat)))
     r = sol.check()
     engine.STATS.queries += 1
+    if r != z3.sat:
+        sol = z3.Solver()
+        sol.set("timeout", tmo)
+        sol.add(*cons)
+        sol.add(*pc)
+        sol.add(z3.Not(z3.And(*good)))
+        r = sol.check()
+        engine.STATS.queries += 1
     engine.STATS.solver_s += time.time() - t1
     out["solver_s"] = round(out.get("solver_s", 0) + time.time() - t1, 2)
     if r == z3.unsat:
